@@ -669,6 +669,11 @@ func engineJobs(rng *rand.Rand, tier, comp string) []engJob {
 				if W >= 100 {
 					add("direct-slow", W, randKinds(rng, 2300+rng.Intn(400), "rrrrrrrrre"), fmt.Sprintf("W%d/>2cap-results/slow-consumer", W))
 					add("direct-slow", W, randKinds(rng, 400+rng.Intn(200), "eeexxr"), fmt.Sprintf("W%d/>cap-errors/slow-consumer", W))
+					// a hand-over that goes wrong only while the consumer takes a record in the middle of it is a matter of
+					// schedule: several such runs, several thousand records beyond what the buffers hold
+					for k := 0; k < 3; k++ {
+						add("direct-slow", W, randKinds(rng, 3200+rng.Intn(1500), "rrrrrrrrrrrrrrrrrrre"), fmt.Sprintf("W%d/>3cap-results/slow-consumer", W))
+					}
 				}
 			}
 		}
